@@ -387,4 +387,297 @@ Section P.
       intros a' it Hin. cbn in Hin. unfold updf in Hin. destruct (N.eqb a' a) eqn:Ea; [|assumption].
       apply N.eqb_eq in Ea. subst a'. cbn in Hin. apply in_or_app. right. assumption.
   Qed.
+
+  (* ---------- refinement ---------- *)
+  Definition okfor (s a : N) (c : C) (st : state) (ls : list label) : Prop :=
+    match decl C st s with
+    | Some (a', c') => a' = a /\ c' = c
+    | None => forall a' c', conv_of C s ls = Some (a', c') -> a' = a /\ c' = c
+    end.
+
+  Notation crun0 := (crun None).
+
+  Lemma absv_eq : forall s a (st st' : state), decl C st' s = decl C st s ->
+    backlog C st' s = backlog C st s -> actors C st' a = actors C st a ->
+    absv C s a st' = absv C s a st.
+  Proof. intros s a st st' Hd Hb Ha. unfold absv. rewrite Hd, Hb, Ha. reflexivity. Qed.
+
+  Lemma backlog_eq : forall s (st st' : state),
+    subscribers C st' = subscribers C st -> queue C st' = queue C st ->
+    (forall i, index_of C s (subscribers C st) = Some i -> rem_batch C st' i = rem_batch C st i) ->
+    after_set C s (batch_rest C st' ++ queue C st) = after_set C s (batch_rest C st ++ queue C st) ->
+    backlog C st' s = backlog C st s.
+  Proof.
+    intros s st st' Hs Hq Hr Ha. unfold backlog. rewrite Hs, Hq.
+    destruct (index_of C s (subscribers C st)) as [i|] eqn:E; [rewrite (Hr i eq_refl); reflexivity|].
+    rewrite Ha. reflexivity.
+  Qed.
+
+  Lemma backlog_ctl : forall s (st st' : state), step st LCtl = Some st' -> backlog C st' s = backlog C st s.
+  Proof.
+    intros s st st' H. cbn [V2.step] in H.
+    destruct (dp C st) as [|a|a b si|a b si mi|b] eqn:Dp; try discriminate.
+    - destruct (Nat.ltb a (length (batch C st))) eqn:Lt.
+      + pose proof (seg_end_spec (skipn a (batch C st)) a) as (S1 & S2 & S3).
+        set (b := seg_end C (skipn a (batch C st)) a) in *.
+        assert (Hr : skipn a (batch C st) = seg C (batch C st) a b ++ skipn b (batch C st))
+          by (symmetry; apply seg_split; exact S1).
+        destruct (Nat.ltb a b) eqn:Lab; inversion H; subst; clear H.
+        * apply backlog_eq; try reflexivity.
+          -- intros i _. unfold rem_batch. cbn [dp batch set_dp]. rewrite Dp. rewrite Hr, datas_app. reflexivity.
+          -- unfold batch_rest. cbn [dp batch set_dp]. rewrite Dp, Hr, <- app_assoc.
+             symmetry. apply after_set_data_prefix. exact S3.
+        * apply Nat.ltb_ge in Lab. assert (b = a) by lia.
+          apply backlog_eq; try reflexivity.
+          -- intros i _. unfold rem_batch. cbn [dp batch set_dp]. rewrite Dp. congruence.
+          -- unfold batch_rest. cbn [dp batch set_dp]. rewrite Dp. congruence.
+      + inversion H; subst; clear H. apply Nat.ltb_ge in Lt.
+        apply backlog_eq; try reflexivity.
+        * intros i _. unfold rem_batch. cbn [dp batch set_dp]. rewrite Dp, (skipn_all_nil _ _ _ Lt). reflexivity.
+        * unfold batch_rest. cbn [dp batch set_dp]. rewrite Dp, (skipn_all_nil _ _ _ Lt). reflexivity.
+    - destruct (Nat.ltb si (length (subscribers C st))) eqn:Lt; inversion H; subst; clear H.
+      + apply backlog_eq; try reflexivity.
+        * intros i _. unfold rem_batch. cbn [dp batch set_dp]. rewrite Dp.
+          destruct (Nat.ltb i si); [reflexivity|]. destruct (Nat.eqb i si); reflexivity.
+        * unfold batch_rest. cbn [dp batch set_dp]. rewrite Dp. reflexivity.
+      + apply Nat.ltb_ge in Lt. apply backlog_eq; try reflexivity.
+        * intros i Hi. apply index_of_lt in Hi. unfold rem_batch. cbn [dp batch set_dp]. rewrite Dp.
+          assert (Nat.ltb i si = true) as -> by (apply Nat.ltb_lt; lia). reflexivity.
+        * unfold batch_rest. cbn [dp batch set_dp]. rewrite Dp. reflexivity.
+    - destruct (Nat.ltb mi b) eqn:Lt; [discriminate|]. inversion H; subst; clear H.
+      apply Nat.ltb_ge in Lt. apply backlog_eq; try reflexivity.
+      + intros i _. unfold rem_batch. cbn [dp batch set_dp]. rewrite Dp.
+        destruct (Nat.ltb i si) eqn:L1.
+        * assert (Nat.ltb i (S si) = true) as -> by (apply Nat.ltb_lt; apply Nat.ltb_lt in L1; lia). reflexivity.
+        * destruct (Nat.eqb i si) eqn:L2.
+          -- apply Nat.eqb_eq in L2. subst i.
+             assert (Nat.ltb si (S si) = true) as -> by (apply Nat.ltb_lt; lia).
+             rewrite (seg_empty _ _ _ Lt). reflexivity.
+          -- apply Nat.ltb_ge in L1. apply Nat.eqb_neq in L2.
+             assert (Nat.ltb i (S si) = false) as -> by (apply Nat.ltb_ge; lia). reflexivity.
+      + unfold batch_rest. cbn [dp batch set_dp]. rewrite Dp. reflexivity.
+    - destruct (Nat.eqb b (length (batch C st))) eqn:Eb; [|discriminate]. inversion H; subst; clear H.
+      apply Nat.eqb_eq in Eb. apply backlog_eq; try reflexivity.
+      + intros i _. unfold rem_batch. cbn [dp batch set_dp]. rewrite Dp, Eb, skipn_all. reflexivity.
+      + unfold batch_rest. cbn [dp batch set_dp]. rewrite Dp, Eb, skipn_all. reflexivity.
+  Qed.
+
+  Lemma not_in_ids : forall (st : state) s, WInv st -> decl C st s = None -> ~ In s (ids st).
+  Proof. intros st s I D Hin. exact (in_ids_decl st s I Hin D). Qed.
+
+  Lemma sim_step : forall s a c (st st' : state) l t,
+    WInv st -> okfor s a c st (l :: t) -> step st l = Some st' ->
+    crun0 (cv c) (absv C s a st) (proj C s a l) = Some (absv C s a st') /\ okfor s a c st' t.
+  Proof.
+    intros s a c st st' l t I Ok H.
+    destruct l as [m|s' a' c'|n| |s'|r|a' s'|a'].
+    - (* LPublish *)
+      cbn [V2.step] in H. inversion H; subst; clear H. split; [|exact Ok].
+      cbn [proj crun]. unfold absv. cbn [decl actors].
+      destruct (decl C st s) as [[a0 c0]|]; [|reflexivity].
+      assert (Hb : backlog C (mkSt C (queue C st ++ [Data m]) (batch C st) (dp C st) (subscribers C st) (actors C st) (decl C st)) s
+                   = option_map (fun b => b ++ [m]) (backlog C st s)).
+      { unfold backlog, rem_batch, batch_rest. cbn [subscribers queue dp batch].
+        destruct (index_of C s (subscribers C st)).
+        - rewrite datas_app, app_assoc. reflexivity.
+        - rewrite app_assoc. destruct (after_set C s (batch_rest C st ++ queue C st)) as [d|] eqn:E;
+            unfold batch_rest in E; rewrite ?E.
+          + rewrite (after_set_app_l _ _ [Data m] _ E). reflexivity.
+          + rewrite (after_set_app_r _ _ [Data m] E). reflexivity. }
+      rewrite Hb. destruct (backlog C st s); reflexivity.
+    - (* LSubscribe *)
+      cbn [V2.step] in H. destruct (decl C st s') eqn:D; [discriminate|]. inversion H; subst; clear H.
+      cbn [proj]. destruct (N.eqb s' s) eqn:Es.
+      + apply N.eqb_eq in Es. subst s'. unfold okfor in Ok. rewrite D in Ok. cbn in Ok. rewrite N.eqb_refl in Ok.
+        destruct (Ok a' c' eq_refl) as [-> ->].
+        pose proof (not_in_ids st s I D) as Hn. unfold ids in Hn.
+        split.
+        * cbn [crun]. unfold absv. rewrite D. cbn [decl actors]. rewrite updf_same2.
+          unfold backlog. cbn [subscribers queue]. rewrite index_of_none.
+          2:{ intros Hin. apply Hn. apply in_or_app. left. exact Hin. }
+          assert (Hb : batch_rest C (mkSt C (queue C st ++ [SetSub s a c]) (batch C st) (dp C st) (subscribers C st)
+                         (actors C st) (updf (decl C st) s (Some (a, c)))) = batch_rest C st) by reflexivity.
+          rewrite Hb, app_assoc, after_set_app_r.
+          2:{ apply after_set_none. rewrite set_ids_app. intros Hin. apply Hn. apply in_or_app. right. exact Hin. }
+          cbn. rewrite N.eqb_refl. reflexivity.
+        * unfold okfor. cbn. rewrite updf_same2. split; reflexivity.
+      + assert (Hne : N.eqb s s' = false) by (apply N.eqb_neq; apply N.eqb_neq in Es; congruence).
+        split.
+        * cbn [crun]. f_equal. symmetry. apply absv_eq; cbn [decl actors]; [apply updf_other2; exact Hne| |reflexivity].
+          unfold backlog, rem_batch, batch_rest. cbn [subscribers queue dp batch].
+          destruct (index_of C s (subscribers C st)).
+          -- rewrite datas_app. cbn. rewrite app_nil_r. reflexivity.
+          -- rewrite app_assoc. destruct (after_set C s (batch_rest C st ++ queue C st)) as [d|] eqn:E;
+               unfold batch_rest in E; rewrite ?E.
+             ++ rewrite (after_set_app_l _ _ [SetSub s' a' c'] _ E). cbn. rewrite app_nil_r. reflexivity.
+             ++ rewrite (after_set_app_r _ _ [SetSub s' a' c'] E). cbn. rewrite Es. reflexivity.
+        * unfold okfor in *. cbn. rewrite (updf_other2 _ _ _ _ _ Hne).
+          destruct (decl C st s); [exact Ok|]. cbn in Ok. rewrite Es in Ok. exact Ok.
+    - (* LTake *)
+      cbn [V2.step] in H. destruct (dp C st) eqn:Dp; try discriminate.
+      match type of H with (if ?bb then _ else _) = _ => destruct bb; [|discriminate] end.
+      inversion H; subst; clear H. split; [|exact Ok].
+      cbn [proj crun]. f_equal. symmetry. apply absv_eq; try reflexivity.
+      unfold backlog, rem_batch, batch_rest. cbn [subscribers queue dp batch]. rewrite Dp.
+      destruct (index_of C s (subscribers C st)).
+      + cbn [skipn app]. rewrite <- datas_app, firstn_skipn. reflexivity.
+      + cbn [skipn app]. rewrite firstn_skipn. reflexivity.
+    - (* LCtl *)
+      split.
+      + cbn [proj crun]. f_equal. symmetry. apply absv_eq.
+        * cbn [V2.step] in H. destruct (dp C st) as [|x|x y z|x y z w|x]; try discriminate;
+            repeat match type of H with (if ?bb then _ else _) = _ => destruct bb end;
+            try discriminate; inversion H; reflexivity.
+        * apply backlog_ctl. exact H.
+        * cbn [V2.step] in H. destruct (dp C st) as [|x|x y z|x y z w|x]; try discriminate;
+            repeat match type of H with (if ?bb then _ else _) = _ => destruct bb end;
+            try discriminate; inversion H; reflexivity.
+      + assert (Hd : decl C st' = decl C st).
+        { cbn [V2.step] in H. destruct (dp C st) as [|x|x y z|x y z w|x]; try discriminate;
+            repeat match type of H with (if ?bb then _ else _) = _ => destruct bb end;
+            try discriminate; inversion H; reflexivity. }
+        unfold okfor in *. rewrite Hd. exact Ok.
+    - (* LSend *)
+      cbn [V2.step] in H.
+      destruct (dp C st) as [|x|x y z|x b si mi|x] eqn:Dp; try discriminate.
+      destruct (Nat.ltb mi b) eqn:Lt; [|discriminate]. apply Nat.ltb_lt in Lt.
+      destruct (nth_error (subscribers C st) si) as [e|] eqn:Ne; [|discriminate].
+      destruct (nth_error (batch C st) mi) as [[m|? ? ?]|] eqn:Nb; try discriminate.
+      destruct (N.eqb (e_sid C e) s') eqn:Es'; [|discriminate]. apply N.eqb_eq in Es'.
+      assert (Hin_e : In e (subscribers C st)) by (eapply nth_error_In; eassumption).
+      pose proof (w_nd _ I) as Hnd. unfold ids in Hnd.
+      assert (Hnds : NoDup (sids (subscribers C st))).
+      { eapply sublist_NoDup; [apply sublist_app_r|exact Hnd]. }
+      pose proof (index_of_nth s' _ si e Hnds Ne Es') as Hidx.
+      pose proof (seg_cons (batch C st) mi b _ Nb Lt) as Hseg.
+      cbn [proj]. destruct (N.eqb s' s) eqn:Es.
+      + apply N.eqb_eq in Es. rewrite Es in *. clear Es. pose proof (w_e _ I e Hin_e) as De. rewrite Es' in De.
+        pose proof Ok as Ok0. unfold okfor in Ok0. rewrite De in Ok0. destruct Ok0 as [Ha Hc].
+        assert (A0 : absv C s a st = mkCore AIdle (m :: datas C (seg C (batch C st) (S mi) b) ++ datas C (skipn b (batch C st)) ++ datas C (queue C st))
+                       (tagged s (a_mbox (actors C st a))) (tagged s (a_got (actors C st a))) (a_alive (actors C st a))).
+        { unfold absv. rewrite De. unfold backlog. rewrite Hidx. unfold rem_batch. rewrite Dp.
+          assert (Nat.ltb si si = false) as -> by (apply Nat.ltb_ge; lia). rewrite Nat.eqb_refl, Hseg.
+          cbn [datas app]. rewrite <- app_assoc. reflexivity. }
+        rewrite A0. cbn [crun cstep c_pc c_backlog c_mbox c_got c_alive lagging].
+        subst c.
+        destruct (cv (e_conv C e) m) as [r|] eqn:Cv.
+        * rewrite Ha in H. destruct (a_alive (actors C st a)) eqn:Al; injection H as <-.
+          -- split; [|unfold okfor in *; cbn [decl]; exact Ok].
+             f_equal. unfold absv. cbn [decl actors]. rewrite De, updf_same2. cbn [a_mbox a_got a_alive].
+             unfold backlog. cbn [subscribers queue]. rewrite Hidx. unfold rem_batch. cbn [dp batch].
+             assert (Nat.ltb si si = false) as -> by (apply Nat.ltb_ge; lia). rewrite Nat.eqb_refl.
+             rewrite tagged_app2, tagged_one_same2, <- app_assoc. reflexivity.
+          -- split; [|unfold okfor in *; cbn [decl]; exact Ok].
+             f_equal. unfold absv. cbn [decl actors]. rewrite De, Al.
+             unfold backlog. cbn [subscribers queue]. rewrite (index_of_remove s _ si Hnds), Hidx, Nat.eqb_refl.
+             assert (Hrest : batch_rest C (mkSt C (queue C st) (batch C st) (DSub x b si) (remove_nth si (subscribers C st)) (actors C st) (decl C st))
+                             = batch_rest C st) by (unfold batch_rest; cbn [dp batch]; rewrite Dp; reflexivity).
+             rewrite Hrest, after_set_none; [reflexivity|].
+             rewrite set_ids_app. intros Hin.
+             assert (Hs : In s (sids (subscribers C st))) by (rewrite <- Es'; unfold sids; apply in_map; exact Hin_e).
+             clear - Hnd Hin Hs. induction (sids (subscribers C st)) as [|y l IH]; [destruct Hs|].
+             cbn in Hnd. inversion Hnd; subst. destruct Hs as [->|Hs].
+             ++ apply H1. apply in_or_app. right. exact Hin.
+             ++ apply IH; assumption.
+        * injection H as <-. split; [|unfold okfor in *; cbn [decl]; exact Ok].
+          f_equal. unfold absv, set_dp. cbn [decl actors]. rewrite De.
+          unfold backlog. cbn [subscribers queue]. rewrite Hidx. unfold rem_batch. cbn [dp batch].
+          assert (Nat.ltb si si = false) as -> by (apply Nat.ltb_ge; lia). rewrite Nat.eqb_refl.
+          rewrite <- app_assoc. reflexivity.
+      + (* a send to another subscriber *)
+        assert (Hne : s' <> s) by (apply N.eqb_neq; exact Es).
+        assert (Hi : forall i, index_of C s (subscribers C st) = Some i -> i <> si).
+        { intros i Hi ->. pose proof (index_of_some_in _ _ _ Hi) as Hs.
+          rewrite (index_of_nth s' _ si e Hnds Ne Es') in Hidx.
+          assert (index_of C s (subscribers C st) = index_of C s' (subscribers C st) -> False).
+          { rewrite Hi, (index_of_nth s' _ si e Hnds Ne Es'). intros _.
+            clear - Hi Ne Es' Hne. revert si Hi Ne. induction (subscribers C st) as [|y l IH]; intros si Hi Ne; [destruct si; discriminate|].
+            cbn in Hi. destruct (N.eqb (e_sid C y) s) eqn:E.
+            - inversion Hi; subst. cbn in Ne. inversion Ne; subst. apply N.eqb_eq in E. congruence.
+            - destruct (index_of C s l) eqn:E2; [|discriminate]. inversion Hi; subst. cbn in Ne. eapply IH; eauto. }
+          apply H0. rewrite Hi, (index_of_nth s' _ si e Hnds Ne Es'). reflexivity. }
+        assert (Hsame : forall mi', backlog C (mkSt C (queue C st) (batch C st) (DMsg x b si mi') (subscribers C st) (actors C st) (decl C st)) s
+                        = backlog C st s).
+        { intros mi'. apply backlog_eq; try reflexivity.
+          - intros i Hidx'. specialize (Hi i Hidx'). unfold rem_batch. cbn [dp batch]. rewrite Dp.
+            destruct (Nat.ltb i si); [reflexivity|].
+            assert (Nat.eqb i si = false) as -> by (apply Nat.eqb_neq; exact Hi). reflexivity.
+          - unfold batch_rest. cbn [dp batch]. rewrite Dp. reflexivity. }
+        destruct (cv (e_conv C e) m) as [r|] eqn:Cv.
+        * destruct (a_alive (actors C st (e_actor C e))) eqn:Al; injection H as <-.
+          -- split; [|unfold okfor in *; cbn [decl]; exact Ok].
+             cbn [crun]. f_equal. unfold absv. cbn [decl].
+             match goal with |- context [backlog C (mkSt C ?q ?bt ?d ?su ?ac ?de) s] =>
+               assert (Hb : backlog C (mkSt C q bt d su ac de) s = backlog C st s) by (apply (Hsame (S mi))) end.
+             rewrite Hb. cbn [actors]. unfold updf. destruct (N.eqb a (e_actor C e)) eqn:Ea; [|reflexivity].
+             apply N.eqb_eq in Ea. subst a. cbn [a_mbox a_got a_alive].
+             rewrite tagged_app2, (tagged_one_other2 _ _ _ Es), app_nil_r, Al.
+             destruct (actors C st (e_actor C e)); reflexivity.
+          -- split; [|unfold okfor in *; cbn [decl]; exact Ok].
+             cbn [crun]. f_equal. symmetry. apply absv_eq; try reflexivity.
+             unfold backlog. cbn [subscribers queue]. rewrite (index_of_remove s _ si Hnds).
+             destruct (index_of C s (subscribers C st)) as [i|] eqn:Ei.
+             ++ specialize (Hi i eq_refl). assert (Nat.eqb i si = false) as -> by (apply Nat.eqb_neq; exact Hi).
+                unfold rem_batch. cbn [dp batch]. rewrite Dp.
+                destruct (Nat.ltb i si) eqn:L1.
+                ** rewrite L1. reflexivity.
+                ** apply Nat.ltb_ge in L1.
+                   assert (Nat.ltb (pred i) si = false) as -> by (apply Nat.ltb_ge; lia).
+                   assert (Nat.eqb i si = false) as -> by (apply Nat.eqb_neq; exact Hi). reflexivity.
+             ++ unfold batch_rest. cbn [dp batch]. rewrite Dp. reflexivity.
+        * injection H as <-. split; [|unfold okfor in *; cbn [decl]; exact Ok].
+          cbn [crun]. f_equal. symmetry. apply absv_eq; try reflexivity. apply Hsame.
+    - (* LApply *)
+      cbn [V2.step] in H.
+      destruct (dp C st) as [|x|x y z|x y z w|b] eqn:Dp; try discriminate.
+      destruct (nth_error (batch C st) b) as [[m|s0 a0 c0]|] eqn:Nb; try discriminate.
+      cbn in H. destruct r as [r|]; [discriminate|]. cbn in H. inversion H; subst; clear H.
+      pose proof (skipn_nth_cons2 _ _ _ _ Nb) as Hr.
+      pose proof (w_nd _ I) as Hnd. unfold ids, batch_rest in Hnd. rewrite Dp, Hr in Hnd. cbn in Hnd.
+      split; [|unfold okfor in *; cbn [decl]; exact Ok].
+      cbn [proj oeqb crun]. f_equal. symmetry. apply absv_eq; try reflexivity.
+      unfold backlog. cbn [subscribers queue]. rewrite index_of_app_one. cbn [e_sid].
+      unfold rem_batch, batch_rest. cbn [dp batch]. rewrite Dp, Hr. cbn [datas].
+      destruct (index_of C s (subscribers C st)) as [i|] eqn:Ei; [reflexivity|].
+      cbn [app after_set]. destruct (N.eqb s0 s) eqn:E0; [|reflexivity].
+      rewrite datas_app. reflexivity.
+    - (* LHandle *)
+      cbn [V2.step] in H.
+      destruct (a_alive (actors C st a')) eqn:Al; [|discriminate].
+      destruct (a_mbox (actors C st a')) as [|[s'' r] q] eqn:M; [discriminate|].
+      destruct (N.eqb s'' s') eqn:Ess; [|discriminate]. apply N.eqb_eq in Ess. subst s''.
+      inversion H; subst; clear H.
+      split; [|unfold okfor in *; cbn [decl]; exact Ok].
+      cbn [proj]. destruct (N.eqb s' s) eqn:Es.
+      + apply N.eqb_eq in Es. subst s'.
+        destruct (w_tag _ I a' s r) as (c1 & D1). { rewrite M. left. reflexivity. }
+        unfold okfor in Ok. rewrite D1 in Ok. destruct Ok as [Ha _]. subst a'.
+        cbn [crun]. unfold absv. cbn [decl actors]. rewrite D1, updf_same2. cbn [a_mbox a_got a_alive].
+        assert (Hb : backlog C (mkSt C (queue C st) (batch C st) (dp C st) (subscribers C st)
+                       (updf (actors C st) a (mkActor true q (a_got (actors C st a) ++ [(s, r)]))) (decl C st)) s
+                     = backlog C st s) by reflexivity.
+        rewrite Hb, Al, M, tagged_cons_same2, tagged_app2, tagged_one_same2.
+        destruct (backlog C st s); reflexivity.
+      + cbn [crun]. f_equal. unfold absv. cbn [decl actors].
+        assert (Hb : backlog C (mkSt C (queue C st) (batch C st) (dp C st) (subscribers C st)
+                       (updf (actors C st) a' (mkActor true q (a_got (actors C st a') ++ [(s', r)]))) (decl C st)) s
+                     = backlog C st s) by reflexivity.
+        rewrite Hb. unfold updf. destruct (N.eqb a a') eqn:Ea; [|reflexivity].
+        apply N.eqb_eq in Ea. subst a'. cbn [a_mbox a_got a_alive].
+        rewrite M, Al, (tagged_cons_other2 _ _ _ _ Es), tagged_app2, (tagged_one_other2 _ _ _ Es), app_nil_r.
+        reflexivity.
+    - (* LStop *)
+      cbn [V2.step] in H.
+      destruct (a_alive (actors C st a')) eqn:Al; [|discriminate]. inversion H; subst; clear H.
+      split; [|unfold okfor in *; cbn [decl]; exact Ok].
+      cbn [proj]. destruct (N.eqb a' a) eqn:Ea.
+      + apply N.eqb_eq in Ea. subst a'. cbn [crun]. unfold absv. cbn [decl actors]. rewrite updf_same2.
+        cbn [a_mbox a_got a_alive].
+        assert (Hb : backlog C (mkSt C (queue C st) (batch C st) (dp C st) (subscribers C st)
+                       (updf (actors C st) a (mkActor false [] (a_got (actors C st a)))) (decl C st)) s
+                     = backlog C st s) by reflexivity.
+        rewrite Hb, Al. destruct (decl C st s); [destruct (backlog C st s)|]; reflexivity.
+      + cbn [crun]. f_equal. symmetry. apply absv_eq; try reflexivity.
+        cbn [actors]. apply updf_other2. apply N.eqb_neq. apply N.eqb_neq in Ea. congruence.
+  Qed.
 End P.
